@@ -7,7 +7,8 @@ From Coq Require Import ZArith List String Ascii Bool.
 From Model Require Import PyBase Graph PeriodicTable Stereo Writer.
 From Gen Require Import Elements SmilesTables.
 From Coq Require Import Permutation.
-From Proofs Require Import WriterProofs WriterProofsAtom WriterProofsTokens WriterProofsStream WriterProofsClosures WriterProofsRefuted.
+From Proofs Require Import WriterProofs WriterProofsAtom WriterProofsTokens WriterProofsStream WriterProofsClosures WriterProofsRefuted
+                           WriterWfAtoms WriterWfFlatten WriterWfStream.
 Import ListNotations.
 Open Scope Z_scope.
 
@@ -232,3 +233,59 @@ Theorem C02_canonical_injective_refuted :
   smiles_text rf_g2 (rf_fun rf_w2) rf_tb default_opts rf_t2 = Ok ("C/C=1/CCCCCC/C=C/C=1"%string, rf_order).
 Proof. exact canonical_injective_refuted. Qed.
 Print Assumptions C02_canonical_injective_refuted.
+
+(* ---- writer_wellformed, token-stream part: stream_ok is a THEOREM about every traversal (extension round) ---- *)
+
+(* every string _format_atom returns is one valid written token, for any molecule whose atom is in the reader's ranges *)
+Theorem C02_format_atom_token : forall g o tabs n adj s,
+  format_atom g o tabs n adj = Ok s -> atom_writable g o n ->
+  exists w, atom_token s = Some w /\ wtok_ok w = true.
+Proof. exact format_atom_token. Qed.
+Print Assumptions C02_format_atom_token.
+
+(* every string _format_bond returns is one of the eight bond spellings (unconditionally) *)
+Theorem C02_format_bond_token : forall g o ctm n m s, format_bond g o ctm n m = Ok s ->
+  exists ts, bond_token s = Some ts /\ forallb wtok_ok ts = true /\ forallb after_open_ok ts = true.
+Proof. exact format_bond_token. Qed.
+Print Assumptions C02_format_bond_token.
+
+(* the flattening loop, for ANY traversal: '(' is always followed by a bond token and an atom, a bond token by an atom
+   (so the `if smiles[-2] == '('` branch of the code is dead) *)
+Theorem C02_flatten_shaped : forall g t smi, flatten g t = Ok smi -> shaped smi.
+Proof. exact flatten_shaped. Qed.
+Print Assumptions C02_flatten_shaped.
+
+(* every closure number written comes from the heap 1..99, whatever the closure lists are (no hypothesis) *)
+Theorem C02_closure_numbers_from_heap : forall tokens ro todo casted heap casted' heap',
+  Rng casted heap -> number_atoms tokens ro todo casted heap = Ok (casted', heap') ->
+  Rng casted' heap' /\
+  (forall a x, In a todo -> In x (zgetl tokens (fst a)) -> zget casted' (snd x) <> None).
+Proof. exact na_rng. Qed.
+Print Assumptions C02_closure_numbers_from_heap.
+
+(* the list of strings the writer produces is accepted by the stream checker: for EVERY molecule whose atoms are in the
+   ranges of the reader's pattern, every weight function, tie-break, stereo registry and option set *)
+Theorem C02_writer_stream_ok : forall g w tb o tabs, atoms_writable g o ->
+  forall out order, smiles_tokens g w tb o tabs = Ok (Some (out, order)) -> stream_ok out = true.
+Proof. exact writer_stream_ok. Qed.
+Print Assumptions C02_writer_stream_ok.
+
+(* hence: the text written is split by _tokenize into exactly the tokens the strings stand for (unconditional form of
+   C02_writer_text_tokenizes) *)
+Theorem C02_writer_tokenizes : forall g w tb o tabs out order,
+  atoms_writable g o -> smiles_tokens g w tb o tabs = Ok (Some (out, order)) ->
+  exists ts, wtoks_of out = Some ts /\ wtoks_ok false ts = true /\ tokenize (spell out) = Ok (map rt_of ts).
+Proof. exact writer_tokenizes. Qed.
+Print Assumptions C02_writer_tokenizes.
+
+(* the hypothesis is decidable (evaluated by the check on every molecule of the correspondence) *)
+Theorem C02_atoms_writable_decidable : forall g o, atoms_writable_b g o = true -> atoms_writable g o.
+Proof. exact atoms_writable_b_sound. Qed.
+Print Assumptions C02_atoms_writable_decidable.
+
+Theorem C02_writer_tokenizes_example :
+  atoms_writable ex_mol default_opts /\
+  exists out order ts, smiles_tokens ex_mol (fun n => n) (fun n => n) default_opts no_stabs = Ok (Some (out, order)) /\
+                       wtoks_of out = Some ts /\ tokenize "[nH]1cccc1.[Na+]" = Ok (map rt_of ts).
+Proof. exact writer_tokenizes_example. Qed.
+Print Assumptions C02_writer_tokenizes_example.
